@@ -102,6 +102,7 @@ def storeStep (st : StoreState) (ws : List String) : StoreState × String × Str
   | ["flush"] => same st "ok"
   | ["flushimm"] => same st "ok"
   | ["compact"] => same st "ok"
+  | ["compactflush"] => same st "ok"   -- a flush while a compaction round is between hiding its inputs and the manifest switch
   | ["reopen"] => same { st with readers := [] } "ok"
   | ["scanall"] => same st (scanStr st.cur)
   | ["crash"] => same st s!"img={scanStr st.cur} re=ok"
